@@ -101,7 +101,12 @@ impl Naming {
             return *x;
         }
         let x = self.make(s);
-        assert!(!self.rev.contains_key(&x), "naming not injective at {s}");
+        if let Some(old) = self.rev.get(&x).copied() {
+            // the e-graph showed this slot to the simulator before the simulator used the name
+            // itself (it was registered as an unknown slot): the real name wins
+            assert!(Naming::is_unknown(old), "naming not injective at {s}");
+            self.fwd.remove(&old);
+        }
         self.fwd.insert(s, x);
         self.rev.insert(x, s);
         x
